@@ -479,7 +479,9 @@ class Group:
         mid = req.consumer_id
         gen = req.consumer_group_generation_id
         err = 0
-        if gen >= 0 or mid:
+        # GroupCoordinator.doCommitOffsets (2.8): a commit without generation is only taken while the group
+        # is Empty (the group merely stores offsets); otherwise the sender must be a member of this generation
+        if gen >= 0 or mid or self.members:
             if mid not in self.members:
                 err = 25
             elif gen != self.generation:
